@@ -663,21 +663,26 @@ def _check_default_layout(out, layers, flags, what, extra=False):
         out.fail("helpers", "helpers:%s:extra_layer" % what, {"got": cls_of(layers[8]).__name__})
 
 
+POSITIONAL = ["groups", "media", "privacy", "profiles"]     # the order in which the helpers take the module switches
+
+
 def _helpers(case, out):
     if case["which"] == "two_stacks":
         return _two_stacks(case, out)
     flags = {k: bool(case["flags"].get(k, True)) for k in OPTIONAL}
     which = case["which"]
-    out.label("helper=" + which)
+    out.label("helper=" + which, "call=" + case.get("call", "keywords"))
     out.info = {"nt": not all(flags.values()) or bool(case.get("axolotl")) or bool(case.get("extra"))}
     try:
         if which == "protocol":
-            got = YowStackBuilder.getProtocolLayers(**flags)
+            got = YowStackBuilder.getProtocolLayers(*[flags[k] for k in POSITIONAL]) if case.get("call") == "positional" \
+                else YowStackBuilder.getProtocolLayers(**flags)
             exp = _expect_protocol(flags)
             if set(got) != exp or len(got) != len(exp):
                 out.fail("helpers", "helpers:protocol:modules", {"flags": flags, "got": [c.__name__ for c in got]})
         elif which == "layers":
-            got = list(YowStackBuilder.getDefaultLayers(**flags))
+            got = list(YowStackBuilder.getDefaultLayers(*[flags[k] for k in POSITIONAL]) if case.get("call") == "positional"
+                       else YowStackBuilder.getDefaultLayers(**flags))
             _check_default_layout(out, got, flags, "default_layers")
         elif which == "core":
             got = list(YowStackBuilder.getCoreLayers())
@@ -688,7 +693,11 @@ def _helpers(case, out):
             kw["axolotl"] = bool(case.get("axolotl"))
             if case.get("extra"):
                 kw["layer"] = ExtraTop
-            stack = YowStackBuilder.getDefaultStack(**kw)
+            if case.get("call") == "positional":
+                # the helper's documented parameter order: the extra layer, the encryption switch, then the four modules
+                stack = YowStackBuilder.getDefaultStack(kw.get("layer"), kw["axolotl"], *[flags[k] for k in POSITIONAL])
+            else:
+                stack = YowStackBuilder.getDefaultStack(**kw)
             layers = []
             i = 0
             while True:
@@ -749,9 +758,12 @@ def _enum_helpers():
         flags = dict(zip(["groups", "media", "privacy", "profiles"], bits))
         yield {"sub": "helpers", "which": "protocol", "flags": flags}
         yield {"sub": "helpers", "which": "layers", "flags": flags}
+        yield {"sub": "helpers", "which": "protocol", "flags": flags, "call": "positional"}
+        yield {"sub": "helpers", "which": "layers", "flags": flags, "call": "positional"}
         for axolotl in (False, True):
             for extra in (False, True):
                 yield {"sub": "helpers", "which": "stack", "flags": flags, "axolotl": axolotl, "extra": extra}
+                yield {"sub": "helpers", "which": "stack", "flags": flags, "axolotl": axolotl, "extra": extra, "call": "positional"}
     hows = ["default_stack", "default_layers", "builder"]
     n = 0
     for bits in itertools.product([True, False], repeat=4):
@@ -809,3 +821,4 @@ def plan(tier):
     }
 
 RULE += (" Also: a send that one layer refuses (raises), after which no layer's send lock may still be held; an earlier stack assembled from the same layer classes.")
+RULE += (" The default helpers are called with keywords and with positional arguments in their documented order (call=positional).")
